@@ -167,7 +167,7 @@ theorem tagInv_beginProg (c : Ctx) (t : Tid) (n : Nat) (o : Op) (k : Key) (r : R
 theorem step_nonmicro_prog {s s' : State} {a : Act} {o : Out} (ha : ∀ th ch ch2, a ≠ .micro th ch ch2)
     (hs : step s a = some (s', o)) (th' : Th) :
     s'.prog th' = s.prog th' ∨
-    (s.prog th' = [] ∧ (plainOps (s'.prog th') ∨
+    (s.prog th' = [] ∧ noDlv (s'.prog th') ∧ (((∃ c, th' = .sock c) ∧ plainOps (s'.prog th')) ∨
         ∃ c t n op, a = .begin c t op ∧ th' = .user c t ∧ s'.prog th' = beginProg c t n op)) := by
   cases a with
   | micro th ch ch2 => exact absurd rfl (ha th ch ch2)
@@ -177,7 +177,7 @@ theorem step_nonmicro_prog {s s' : State} {a : Act} {o : Out} (ha : ∀ th ch ch
     · rename_i hc
       cases op <;> simp at hs <;> obtain ⟨rfl, -⟩ := hs <;> simp only [setProg_prog, State.setProg, upd] <;>
         (split
-         · rename_i e; subst e; right; exact ⟨hc.2, Or.inr ⟨_, _, _, _, rfl, rfl, rfl⟩⟩
+         · rename_i e; subst e; right; exact ⟨hc.2, noDlv_beginProg _ _ _ _, Or.inr ⟨_, _, _, _, rfl, rfl, rfl⟩⟩
          · left; rfl)
     · simp at hs
   | cb c ok =>
@@ -195,17 +195,16 @@ theorem step_nonmicro_prog {s s' : State} {a : Act} {o : Out} (ha : ∀ th ch ch
           simp only [setProg_prog, hpx, setCtx_prog]
           split
           · rename_i e; subst e; right
-            refine ⟨hc.2, Or.inl ?_⟩
             rcases hpr with e | e <;> rw [e]
-            · exact plainOps_nil
-            · exact plainOps_onSendFail _
+            · exact ⟨hc.2, noDlv_nil, Or.inl ⟨⟨_, rfl⟩, plainOps_nil⟩⟩
+            · exact ⟨hc.2, noDlv_onSendFail _, Or.inl ⟨⟨_, rfl⟩, plainOps_onSendFail _⟩⟩
           · left; rfl
       · split at hs
         all_goals
           simp at hs; obtain ⟨rfl, -⟩ := hs
           simp only [setProg_prog, setCtx_prog]
           split
-          · rename_i e; subst e; right; exact ⟨hc.2, Or.inl (by simp [plainOps, MOp.isEnd, MOp.isSubAdd])⟩
+          · rename_i e; subst e; right; exact ⟨hc.2, by simp [noDlv, MOp.isDeliver], Or.inl ⟨⟨_, rfl⟩, by simp [plainOps, MOp.isEnd, MOp.isSubAdd]⟩⟩
           · left; rfl
     · simp at hs
   | arrive cn cli =>
@@ -218,7 +217,7 @@ theorem step_nonmicro_prog {s s' : State} {a : Act} {o : Out} (ha : ∀ th ch ch
         obtain ⟨rfl, -⟩ := hs
         simp only [State.setProg, upd]
         split
-        · rename_i e; subst e; right; exact ⟨hc.2.2.1, Or.inl (plainOps_dispatch _ _)⟩
+        · rename_i e; subst e; right; exact ⟨hc.2.2.1, noDlv_dispatch _ _, Or.inl ⟨⟨_, rfl⟩, plainOps_dispatch _ _⟩⟩
         · left; rfl
     · simp at hs
   | eof cn cli =>
@@ -229,7 +228,7 @@ theorem step_nonmicro_prog {s s' : State} {a : Act} {o : Out} (ha : ∀ th ch ch
       obtain ⟨rfl, -⟩ := hs
       simp only [setProg_prog]
       split
-      · rename_i e; subst e; right; exact ⟨hc.2.2.1, Or.inl (by simp [plainOps, MOp.isEnd, MOp.isSubAdd])⟩
+      · rename_i e; subst e; right; exact ⟨hc.2.2.1, by simp [noDlv, MOp.isDeliver], Or.inl ⟨⟨_, rfl⟩, by simp [plainOps, MOp.isEnd, MOp.isSubAdd]⟩⟩
       · left; rfl
     · simp at hs
   | connect a p =>
@@ -261,7 +260,7 @@ theorem tagInv_step {s s' : State} {a : Act} {o : Out} (h : TagInv s) (hs : step
       exact h th' k r op' hm' ha'
   · have ha' : ∀ th ch ch2, a ≠ .micro th ch ch2 := fun th ch ch2 e => ha ⟨th, ch, ch2, e⟩
     intro th' k r op' hm' hx
-    rcases step_nonmicro_prog ha' hs th' with e | ⟨-, hpl | ⟨c, t, n, op, -, -, e⟩⟩
+    rcases step_nonmicro_prog ha' hs th' with e | ⟨-, -, ⟨-, hpl⟩ | ⟨c, t, n, op, -, -, e⟩⟩
     · rw [e] at hm' ⊢; exact h th' k r op' hm' hx
     · exact tagInv_of_plain hpl op' hm' hx
     · rw [e] at hm' ⊢; exact tagInv_beginProg c t n op k r op' hm' hx
@@ -330,5 +329,441 @@ theorem absent_micro {s s' : State} {th : Th} {ch ch2 : Nat} {op : MOp} {rest : 
   all_goals (try exact handleReplyStep_absent hp ha' ‹handleReplyStep _ _ _ = some _›)
   all_goals (try (simp only [MOp.isSubAdd, Bool.and_eq_false_iff, decide_eq_false_iff_not] at hop))
   all_goals (try (constructor <;> (try intros) <;> simp only [upd, peerRemovedStep] at * <;> grind))
+
+
+/-- the tag carried by the program of a user-level call -/
+def opTag (c : Ctx) (t : Tid) (n : Nat) : Op → OpTag
+  | .publish ob sg => .pub ⟨.name c, ob, sg⟩ ⟨c, t, n⟩
+  | .subscribe pc ob sg r => .sub ⟨.name pc, ob, sg⟩ r
+  | .unsubscribe pc ob sg r => .unsub ⟨.name pc, ob, sg⟩ r
+  | .removeObj ob => .rm ob
+  | .makeObj ob => .mk ob
+  | .disconnect p => .disc (.name p)
+
+theorem progTag_beginProg (c : Ctx) (t : Tid) (n : Nat) (o : Op) : progTag (beginProg c t n o) = opTag c t n o := by
+  cases o <;> simp only [beginProg, opTag] <;> (try split) <;> simp [progTag]
+
+/-- From the moment an unsubscribe of receiver `r` (context `c`) from key `k` has taken effect, and as long as no
+`subscribe(k, r)` call is made: `r` is not a subscriber, and every delivery to `r` for `k` that is still to come
+belongs to a snapshot with index below `N` (i.e. taken before that moment). -/
+structure Quiet (s : State) (c : Ctx) (k : Key) (r : Rcv) (N : Nat) : Prop where
+  tags : ∀ th, th.ctx = c → progTag (s.prog th) ≠ .sub k r
+  absent : Absent (s.ctx c) k r
+  dlv : ∀ th sid rs p, th.ctx = c → headDlv (s.prog th) = some (sid, rs, k, p) → r ∈ rs → sid < N
+  le : N ≤ s.snaps.length
+
+theorem quiet_step {s s' : State} {a : Act} {o : Out} {c : Ctx} {k : Key} {r : Rcv} {N : Nat}
+    (hreach : Reach s) (h : Quiet s c k r N) (hs : step s a = some (s', o))
+    (hno : ∀ t pc ob sg, a = .begin c t (.subscribe pc ob sg r) → (⟨.name pc, ob, sg⟩ : Key) ≠ k) : Quiet s' c k r N := by
+  have htag := tagInv_reach hreach
+  have hpend := pendInv_reach hreach
+  have hdlv := dlvInv_reach hreach
+  by_cases ha : ∃ th ch ch2, a = .micro th ch ch2
+  · obtain ⟨th, ch, ch2, rfl⟩ := ha
+    obtain ⟨-, op, rest, hp, hm⟩ := step_micro_inv hs
+    have hf := microStep_frame hm
+    have hsh := microStep_shape hm
+    have hrest : noDlv rest := by have := hdlv.tail th; rw [hp] at this; exact this
+    refine ⟨?_, ?_, ?_, ?_⟩
+    · intro th' hc
+      by_cases e : th' = th
+      · subst e
+        rcases progTag_shape (op := op) hsh with e1 | e1
+        · rw [e1, ← hp]; exact h.tags th' hc
+        · rw [e1]; simp
+      · rw [hf.prog_other th' e]; exact h.tags th' hc
+    · by_cases hc : th.ctx = c
+      · subst hc
+        have hop : op.isSubAdd k r = false := by
+          cases hx : op.isSubAdd k r with
+          | false => rfl
+          | true =>
+            have := htag th k r op (by rw [hp]; exact List.mem_cons_self) hx
+            exact absurd this (h.tags th rfl)
+        exact absent_micro (hpend th.ctx) hop h.absent hm
+      · rw [hf.ctx_other c (fun e => hc e.symm)]; exact h.absent
+    · intro th' sid rs p hc hx hr
+      by_cases e : th' = th
+      · subst e
+        by_cases hd : op.isDeliver = true
+        · cases op <;> simp only [MOp.isDeliver] at hd <;> try contradiction
+          rename_i sid0 rs0 k0 p0
+          simp only [microStep] at hm
+          split at hm
+          · simp only [Option.some.injEq, Prod.mk.injEq] at hm
+            obtain ⟨rfl, -⟩ := hm
+            simp only [setProg_prog, if_true] at hx
+            split at hx
+            · rw [headDlv_of_noDlv hrest] at hx; simp at hx
+            · simp only [headDlv, Option.some.injEq, Prod.mk.injEq] at hx
+              obtain ⟨rfl, rfl, rfl, rfl⟩ := hx
+              exact h.dlv th' sid0 rs0 p0 hc (by rw [hp]; rfl) (List.mem_of_mem_erase hr)
+          · simp at hm
+        · by_cases hl : op.isSnapLocal = true
+          · cases op <;> simp only [MOp.isSnapLocal] at hl <;> try contradiction
+            rename_i k0 p0
+            simp only [microStep, Option.some.injEq, Prod.mk.injEq] at hm
+            obtain ⟨rfl, -⟩ := hm
+            simp only [setProg_prog, if_true] at hx
+            split at hx
+            · rw [headDlv_of_noDlv hrest] at hx; simp at hx
+            · simp only [headDlv, Option.some.injEq, Prod.mk.injEq] at hx
+              obtain ⟨rfl, rfl, rfl, rfl⟩ := hx
+              subst hc
+              exact absurd hr h.absent.1
+          · have hd' : op.isDeliver = false := by simpa using hd
+            have hl' : op.isSnapLocal = false := by simpa using hl
+            obtain ⟨-, -, h3⟩ := microStep_other hd' hl' hrest hm
+            rw [headDlv_of_noDlv h3] at hx; simp at hx
+      · rw [hf.prog_other th' e] at hx
+        exact h.dlv th' sid rs p hc hx hr
+    · have : s.snaps.length ≤ s'.snaps.length := by
+        by_cases hl : op.isSnapLocal = true
+        · cases op <;> simp only [MOp.isSnapLocal] at hl <;> try contradiction
+          simp only [microStep, Option.some.injEq, Prod.mk.injEq] at hm
+          obtain ⟨rfl, -⟩ := hm
+          simp
+        · by_cases hd : op.isDeliver = true
+          · cases op <;> simp only [MOp.isDeliver] at hd <;> try contradiction
+            simp only [microStep] at hm
+            split at hm
+            · simp only [Option.some.injEq, Prod.mk.injEq] at hm
+              obtain ⟨rfl, -⟩ := hm
+              simp
+            · simp at hm
+          · have hd' : op.isDeliver = false := by simpa using hd
+            have hl' : op.isSnapLocal = false := by simpa using hl
+            obtain ⟨h1, -, -⟩ := microStep_other hd' hl' hrest hm
+            rw [h1]; exact Nat.le_refl _
+      exact Nat.le_trans h.le this
+  · have ha' : ∀ th ch ch2, a ≠ .micro th ch ch2 := fun th ch ch2 e => ha ⟨th, ch, ch2, e⟩
+    have hsame := step_nonmicro_tables ha' hs
+    have hq := dlvInv_step hdlv (setsInv_reach hreach) hs
+    refine ⟨?_, ?_, ?_, ?_⟩
+    · intro th' hc
+      rcases step_nonmicro_prog ha' hs th' with e | ⟨-, -, ⟨-, hpl⟩ | ⟨c', t, n, op, rfl, rfl, e⟩⟩
+      · rw [e]; exact h.tags th' hc
+      · rw [progTag_plain hpl]; simp
+      · rw [e, progTag_beginProg]
+        simp only [Th.ctx] at hc
+        subst hc
+        cases op <;> simp only [opTag] <;> (try simp)
+        rename_i pc ob sg r'
+        intro hk hr
+        subst hr
+        exact hno t pc ob sg rfl hk
+    · obtain ⟨h1, h2⟩ := h.absent
+      have e := hsame c
+      exact ⟨by rw [e.lsubs]; exact h1, by rw [e.byKey, e.pobj]; exact h2⟩
+    · intro th' sid rs p hc hx hr
+      rcases step_nonmicro_prog ha' hs th' with e | ⟨-, hn, -⟩
+      · rw [e] at hx; exact h.dlv th' sid rs p hc hx hr
+      · rw [headDlv_of_noDlv hn] at hx; simp at hx
+    · have : s'.snaps = s.snaps := by
+        cases a with
+        | micro th ch ch2 => exact absurd rfl (ha' th ch ch2)
+        | begin c' t op =>
+          simp only [step] at hs
+          split at hs
+          · cases op <;> simp at hs <;> obtain ⟨rfl, -⟩ := hs <;> rfl
+          · simp at hs
+        | cb c' ok =>
+          simp only [step] at hs
+          split at hs
+          · split at hs
+            · simp at hs
+            · split at hs
+              · simp at hs
+              · rename_i heq
+                obtain ⟨-, -, hsx, -, -, -⟩ := smSendStep_frame heq
+                simp only [Option.some.injEq, Prod.mk.injEq] at hs
+                obtain ⟨rfl, -⟩ := hs
+                simp [hsx]
+            · split at hs
+              all_goals
+                simp at hs; obtain ⟨rfl, -⟩ := hs
+                simp
+          · simp at hs
+        | arrive cn cli =>
+          simp only [step] at hs
+          split at hs
+          · split at hs
+            · simp at hs
+            · simp only [Option.some.injEq, Prod.mk.injEq] at hs
+              obtain ⟨rfl, -⟩ := hs
+              simp [State.setProg]
+          · simp at hs
+        | eof cn cli =>
+          simp only [step] at hs
+          split at hs
+          · simp only [Option.some.injEq, Prod.mk.injEq] at hs
+            obtain ⟨rfl, -⟩ := hs
+            simp
+          · simp at hs
+        | connect a p =>
+          simp only [step] at hs
+          split at hs
+          · simp only [Option.some.injEq, Prod.mk.injEq] at hs
+            obtain ⟨rfl, -⟩ := hs
+            simp
+          · simp at hs
+        | stop c' =>
+          simp only [step] at hs
+          split at hs
+          · simp only [Option.some.injEq, Prod.mk.injEq] at hs
+            obtain ⟨rfl, -⟩ := hs
+            simp
+          · simp at hs
+      rw [this]; exact h.le
+
+
+/-- where a new item in a receiver's queue comes from: a deliver operation at the head of a thread of that context -/
+theorem got_step {s s' : State} {a : Act} {o : Out} (hreach : Reach s) (hs : step s a = some (s', o)) (c : Ctx) (r : Rcv) :
+    ∀ it ∈ (s'.ctx c).got r, it ∈ (s.ctx c).got r ∨
+      ∃ th rs, th.ctx = c ∧ headDlv (s.prog th) = some (it.sid, rs, it.k, it.p) ∧ r ∈ rs := by
+  intro it hit
+  by_cases ha : ∃ th ch ch2, a = .micro th ch ch2
+  · obtain ⟨th, ch, ch2, rfl⟩ := ha
+    obtain ⟨-, op, rest, hp, hm⟩ := step_micro_inv hs
+    have hrest : noDlv rest := by have := (dlvInv_reach hreach).tail th; rw [hp] at this; exact this
+    by_cases hd : op.isDeliver = true
+    · cases op <;> simp only [MOp.isDeliver] at hd <;> try contradiction
+      rename_i sid0 rs0 k0 p0
+      simp only [microStep] at hm
+      split at hm
+      · rename_i hmem
+        simp only [Option.some.injEq, Prod.mk.injEq] at hm
+        obtain ⟨rfl, -⟩ := hm
+        simp only [setProg_ctx, setCtx_ctx] at hit
+        split at hit
+        · rename_i e; subst e
+          simp only [upd] at hit
+          split at hit
+          · rename_i e2; subst e2
+            rw [List.mem_append, List.mem_singleton] at hit
+            rcases hit with hit | rfl
+            · left; exact hit
+            · right; exact ⟨th, rs0, rfl, by rw [hp]; rfl, hmem⟩
+          · left; exact hit
+        · left; exact hit
+      · simp at hm
+    · by_cases hl : op.isSnapLocal = true
+      · cases op <;> simp only [MOp.isSnapLocal] at hl <;> try contradiction
+        simp only [microStep, Option.some.injEq, Prod.mk.injEq] at hm
+        obtain ⟨rfl, -⟩ := hm
+        left; exact hit
+      · have hd' : op.isDeliver = false := by simpa using hd
+        have hl' : op.isSnapLocal = false := by simpa using hl
+        obtain ⟨-, h2, -⟩ := microStep_other hd' hl' hrest hm
+        rw [h2] at hit; left; exact hit
+  · have ha' : ∀ th ch ch2, a ≠ .micro th ch ch2 := fun th ch ch2 e => ha ⟨th, ch, ch2, e⟩
+    rw [(step_nonmicro_tables ha' hs c).got] at hit
+    left; exact hit
+
+/-- the effective step of `unsubscribe(k, r)` (local: `_remove_local_subscriber`; remote: the lock section of
+`_unsubscribe_remote`), made while no `subscribe(k, r)` is in progress, establishes `Quiet` -/
+theorem quiet_of_unsub {s s' : State} {th : Th} {ch ch2 : Nat} {o : Out} {k : Key} {r : Rcv} {rest : List MOp}
+    (hreach : Reach s)
+    (hp : s.prog th = .removeLocal k r :: rest ∨ s.prog th = .unsubRemote k r :: rest)
+    (htags : ∀ th', th'.ctx = th.ctx → progTag (s.prog th') ≠ .sub k r)
+    (hpend : ∀ pid po, (s.ctx th.ctx).byKey k = some pid → (s.ctx th.ctx).pobj pid = some po → r ∉ po.rcvs)
+    (hs : step s (.micro th ch ch2) = some (s', o)) : Quiet s' th.ctx k r s'.snaps.length := by
+  obtain ⟨-, op, rest', hp', hm⟩ := step_micro_inv hs
+  have hsets := setsInv_reach hreach
+  have hdlv' := dlvInv_step (dlvInv_reach hreach) hsets hs
+  have hf := microStep_frame hm
+  have hsh := microStep_shape hm
+  have hnd := hsets.lsubs th.ctx k
+  have hpk := pendInv_reach hreach th.ctx
+  refine ⟨?_, ?_, ?_, Nat.le_refl _⟩
+  · intro th' hc
+    by_cases e : th' = th
+    · subst e
+      rcases progTag_shape (op := op) hsh with e1 | e1
+      · rw [e1, ← hp']; exact htags th' rfl
+      · rw [e1]; simp
+    · rw [hf.prog_other th' e]; exact htags th' hc
+  · have a4 := hpk.fresh
+    have a5 := hpk.byKey_some
+    rcases hp with hp | hp <;> rw [hp] at hp' <;> simp only [List.cons.injEq] at hp' <;> obtain ⟨rfl, rfl⟩ := hp'
+    · simp only [microStep, Option.some.injEq, Prod.mk.injEq] at hm
+      obtain ⟨rfl, -⟩ := hm
+      simp only [setProg_ctx, setCtx_ctx, if_true, Absent, upd]
+      refine ⟨?_, hpend⟩
+      rw [hnd.mem_erase_iff]; simp
+    · simp only [microStep] at hm
+      split at hm
+      · simp only [Option.some.injEq, Prod.mk.injEq] at hm
+        obtain ⟨rfl, -⟩ := hm
+        simp only [setProg_ctx, setCtx_ctx, if_true, Absent]
+        rename_i e
+        exact ⟨by rw [e]; simp, hpend⟩
+      · split at hm
+        · simp only [Option.some.injEq, Prod.mk.injEq] at hm
+          obtain ⟨rfl, -⟩ := hm
+          simp only [setProg_ctx, setCtx_ctx, if_true, Absent, upd]
+          exact ⟨by rw [hnd.mem_erase_iff]; simp, hpend⟩
+        · split at hm
+          · simp only [Option.some.injEq, Prod.mk.injEq] at hm
+            obtain ⟨rfl, -⟩ := hm
+            simp only [setProg_ctx, setCtx_ctx, if_true, Absent, upd]
+            exact ⟨by rw [hnd.mem_erase_iff]; simp, hpend⟩
+          · simp only [Option.some.injEq, Prod.mk.injEq] at hm
+            obtain ⟨rfl, -⟩ := hm
+            simp only [setProg_ctx, setCtx_ctx, if_true, Absent, upd]
+            refine ⟨by rw [hnd.mem_erase_iff]; simp, ?_⟩
+            intro pid po h1 h2
+            simp only [if_true, Option.some.injEq] at h1
+            subst h1
+            simp only [if_true, Option.some.injEq] at h2
+            subst h2
+            simp
+  · intro th' sid rs p _ hx _
+    obtain ⟨rs0, h1, -⟩ := hdlv'.wf th' sid rs k p hx
+    exact lt_of_getElem?_some h1
+
+
+theorem step_nonmicro_snaps {s s' : State} {a : Act} {o : Out} (ha' : ∀ th ch ch2, a ≠ .micro th ch ch2)
+    (hs : step s a = some (s', o)) : s'.snaps = s.snaps := by
+  cases a with
+  | micro th ch ch2 => exact absurd rfl (ha' th ch ch2)
+  | begin c' t op =>
+    simp only [step] at hs
+    split at hs
+    · cases op <;> simp at hs <;> obtain ⟨rfl, -⟩ := hs <;> rfl
+    · simp at hs
+  | cb c' ok =>
+    simp only [step] at hs
+    split at hs
+    · split at hs
+      · simp at hs
+      · split at hs
+        · simp at hs
+        · rename_i heq
+          obtain ⟨-, -, hsx, -, -, -⟩ := smSendStep_frame heq
+          simp only [Option.some.injEq, Prod.mk.injEq] at hs
+          obtain ⟨rfl, -⟩ := hs
+          simp [hsx]
+      · split at hs
+        all_goals
+          simp at hs; obtain ⟨rfl, -⟩ := hs
+          simp
+    · simp at hs
+  | arrive cn cli =>
+    simp only [step] at hs
+    split at hs
+    · split at hs
+      · simp at hs
+      · simp only [Option.some.injEq, Prod.mk.injEq] at hs
+        obtain ⟨rfl, -⟩ := hs
+        simp [State.setProg]
+    · simp at hs
+  | eof cn cli =>
+    simp only [step] at hs
+    split at hs
+    · simp only [Option.some.injEq, Prod.mk.injEq] at hs
+      obtain ⟨rfl, -⟩ := hs
+      simp
+    · simp at hs
+  | connect a p =>
+    simp only [step] at hs
+    split at hs
+    · simp only [Option.some.injEq, Prod.mk.injEq] at hs
+      obtain ⟨rfl, -⟩ := hs
+      simp
+    · simp at hs
+  | stop c' =>
+    simp only [step] at hs
+    split at hs
+    · simp only [Option.some.injEq, Prod.mk.injEq] at hs
+      obtain ⟨rfl, -⟩ := hs
+      simp
+    · simp at hs
+
+
+/-- the thread an action runs in (`none`: the action touches no program, or — `arrive`/`eof` — is not covered here) -/
+def Act.thread? : Act → Option Th
+  | .begin c t _ => some (.user c t)
+  | .micro th _ _ => some th
+  | .cb c _ => some (.sock c)
+  | _ => none
+
+def Act.isNet : Act → Bool
+  | .arrive .. => true
+  | .eof .. => true
+  | _ => false
+
+/-- a thread that no action of a run belongs to keeps its program (used for the non-vacuity examples) -/
+theorem prog_run_other : ∀ (as : List Act) {s s' : State} (th : Th), run s as = some s' →
+    (∀ a ∈ as, a.isNet = false ∧ a.thread? ≠ some th) → s'.prog th = s.prog th := by
+  intro as
+  induction as with
+  | nil => intro s s' th h _; simp only [run, Option.some.injEq] at h; subst h; rfl
+  | cons a as ih =>
+    intro s s' th h hall
+    simp only [run] at h
+    split at h
+    · rename_i s1 o heq
+      rw [ih th h (fun a' ha' => hall a' (List.mem_cons_of_mem _ ha'))]
+      obtain ⟨hn, ht⟩ := hall a List.mem_cons_self
+      by_cases ha : ∃ th' ch ch2, a = .micro th' ch ch2
+      · obtain ⟨th', ch, ch2, rfl⟩ := ha
+        obtain ⟨-, op, rest, -, hm⟩ := step_micro_inv heq
+        exact (microStep_frame hm).prog_other th (fun e => ht (by simp [Act.thread?, e]))
+      · have ha' : ∀ th' ch ch2, a ≠ .micro th' ch ch2 := fun th' ch ch2 e => ha ⟨th', ch, ch2, e⟩
+        rcases step_nonmicro_prog ha' heq th with e | ⟨-, -, ⟨-, hpl⟩ | ⟨c, t, n, op, rfl, rfl, -⟩⟩
+        · exact e
+        · -- a plain program was started on `th`: only `cb` (excluded by `ht`) or `arrive`/`eof` (excluded by `hn`)
+          cases a with
+          | micro th' ch ch2 => exact absurd rfl (ha' th' ch ch2)
+          | arrive cn cli => simp [Act.isNet] at hn
+          | eof cn cli => simp [Act.isNet] at hn
+          | begin c t op =>
+            simp only [step] at heq
+            split at heq
+            · cases op <;> simp at heq <;> obtain ⟨rfl, -⟩ := heq <;> simp only [setProg_prog, State.setProg, upd] <;>
+                (split
+                 · rename_i e; exact absurd (by simp [Act.thread?, e]) ht
+                 · rfl)
+            · simp at heq
+          | cb c ok =>
+            simp only [step] at heq
+            split at heq
+            · split at heq
+              · simp at heq
+              · split at heq
+                · simp at heq
+                · rename_i heq2
+                  obtain ⟨-, hpx, -, -, -, -⟩ := smSendStep_frame heq2
+                  simp only [Option.some.injEq, Prod.mk.injEq] at heq
+                  obtain ⟨rfl, -⟩ := heq
+                  simp only [setProg_prog, hpx, setCtx_prog]
+                  split
+                  · rename_i e; exact absurd (by simp [Act.thread?, e]) ht
+                  · rfl
+              · split at heq
+                all_goals
+                  simp at heq; obtain ⟨rfl, -⟩ := heq
+                  simp only [setProg_prog, setCtx_prog]
+                  split
+                  · rename_i e; exact absurd (by simp [Act.thread?, e]) ht
+                  · rfl
+            · simp at heq
+          | connect a p =>
+            simp only [step] at heq
+            split at heq
+            · simp only [Option.some.injEq, Prod.mk.injEq] at heq
+              obtain ⟨rfl, -⟩ := heq
+              simp
+            · simp at heq
+          | stop c =>
+            simp only [step] at heq
+            split at heq
+            · simp only [Option.some.injEq, Prod.mk.injEq] at heq
+              obtain ⟨rfl, -⟩ := heq
+              simp
+            · simp at heq
+        · exact absurd rfl ht
+    · simp at h
 
 end QmiModel.PubSub
